@@ -22,8 +22,8 @@ NoOps == {}
 PreNone == {"none"}
 PreSib == {"none", "RU", "RD", "AS2", "SU1"}
 PreSibQuick == {"none", "RD", "AS2"}
-PreTamper == {"none", "AS2", "SU1"}
-PreTamperQuick == {"none", "AS2"}
+PreTamper == {"none", "AS2", "SU1", "RD"}
+PreTamperQuick == {"none", "AS2", "RD"}
 SibAll == AllSibFields
 NoFields == {}
 
@@ -47,7 +47,7 @@ Emit ==
             ELSE
                 [fam |-> "tamper", ver |-> ver, idfmt |-> EventIDFormat(ver), algo |-> A, proto |-> ProtoJson(proto),
                  pre |-> IF Len(hist) = 2 THEN hist[1].op ELSE "none",
-                 T |-> out.T, hm |-> out.hm, kout |-> out.kout, kin |-> out.kin, red |-> out.red,
+                 T |-> out.T, hm |-> out.hm, kout |-> out.kout, kin |-> out.kin, red |-> out.red, noop |-> out.noop,
                  topk |-> out.topk, conk |-> out.conk, tpik |-> out.tpik, idsame |-> out.idsame,
                  valid |-> out.valid, signers |-> DOMAIN sigs]))
 =============================================================================
